@@ -13,7 +13,11 @@ import (
 
 	"github.com/libp2p/go-libp2p/core/peer"
 
+	"github.com/ipfs/go-cid"
+
 	"github.com/ipfs/go-graphsync"
+	"github.com/ipfs/go-graphsync/cidset"
+	"github.com/ipfs/go-graphsync/dedupkey"
 	"github.com/ipfs/go-graphsync/internal/verifrt"
 	gsmsg "github.com/ipfs/go-graphsync/message"
 	"github.com/ipfs/go-graphsync/zz_verif/kit"
@@ -113,12 +117,32 @@ func VerifE2E_Concurrent() {
 		}
 	}
 	workers := verifrt.Param("WORKERS", 2)
+	// optionally the second request runs in its own deduplication scope and
+	// tells the responder not to send one of the non-root blocks
+	var exts1 []graphsync.ExtensionData
+	if verifrt.Param("SCOPES", 1) == 1 && verifrt.Choose("second-request-own-scope", 2) == 1 {
+		nd, _ := dedupkey.EncodeDedupKey("scope-1")
+		exts1 = append(exts1, graphsync.ExtensionData{Name: graphsync.ExtensionDeDupByKey, Data: nd})
+		set := cid.NewSet()
+		// ... one it already holds (the purpose of do-not-send-cids)
+		k := 2 + verifrt.Choose("do-not-send", n-2)
+		local[k] = true
+		set.Add(kit.Cid(k))
+		exts1 = append(exts1, graphsync.ExtensionData{Name: graphsync.ExtensionDoNotSendCIDs, Data: cidset.EncodeCidSet(set)})
+		verifrt.Cover("own-scope")
+	}
+	extsOf := func(r int) []graphsync.ExtensionData {
+		if r == 1 {
+			return exts1
+		}
+		return nil
+	}
 	// alone
 	alone := make([]string, 2)
 	aloneStore := ""
 	for r := 0; r < 2; r++ {
 		w := NewWorld(dag, local, remote, workers, workers)
-		rq := w.Req.StartAt(responderID, r, r)
+		rq := w.Req.StartAt(responderID, r, r, extsOf(r)...)
 		kit.Drain()
 		alone[r] = outcome(rq)
 		aloneStore += stored(w.Req, n) + "|"
@@ -169,7 +193,7 @@ func VerifE2E_Concurrent() {
 	if verifrt.Choose("second-starts-after-drain", 2) == 1 {
 		kit.Drain()
 	}
-	rq1 := w.Req.StartAt(responderID, 1, 1)
+	rq1 := w.Req.StartAt(responderID, 1, 1, exts1...)
 	kit.Drain()
 	together := []string{outcome(rq0), outcome(rq1)}
 	desc := ""
